@@ -111,7 +111,79 @@ def gen_case(rng, big=False, file=False):
         'surf': surf, 'angle': angle, 'shift': shift,
         'conv1': rng.choice(convs), 'justify': rng.choice(['r', 'r', 'l']), 'snap': rng.choice([0.1, 0.1, 1e-3]) if not file else 0.1,
         'file': file,
+        'remove_inactive': False, 'boundary': None,
     }
+
+
+def gen_boundary(rng):
+    """inactive boundary blocks and remove_inactive=True:
+       atm-demoted : the atmosphere blocks (type 0/1, zero or huge volume) are moved to the end of the block list (TOUGH2's place for
+                     inactive elements); remove_inactive True or False
+       top-zero / top-huge : the top blocks of some columns of a grid without atmosphere are turned into boundary blocks in place
+       top-marker  : they keep their volumes but are moved to the end behind a zero-volume marker element; remove_inactive=True"""
+    rec = gen_case(rng)
+    mode = rng.choice(['atm-demoted', 'atm-demoted', 'top-zero', 'top-huge', 'top-marker', 'top-marker'])
+    if mode == 'atm-demoted':
+        rec['atm'] = rng.choice([0, 1])
+        rec['atmvol'] = rng.choice([0.0, 1e30, 1e25])
+        rec['remove_inactive'] = rng.random() < 0.7
+        rec['boundary'] = {'mode': mode}
+    else:
+        rec['atm'] = 2
+        ncol = len(rec['dx']) * len(rec['dy'])
+        rec['remove_inactive'] = (mode == 'top-marker') or rng.random() < 0.3
+        rec['boundary'] = {'mode': mode, 'cols': sorted(rng.sample(range(ncol), rng.randint(1, ncol)))}
+        # a zero-volume element in the middle of the block list together with remove_inactive=True declares every later
+        # block inactive (TOUGH2's convention): a misuse of the flag, outside the property -- correspondence only
+        rec['oracle'] = not (mode == 'top-zero' and rec['remove_inactive'])
+    return rec
+
+
+def top_layer_index(geo, col):
+    for i, lay in enumerate(geo.layerlist[1:], 1):
+        if lay.bottom < col.surface:
+            return i
+    return None
+
+
+def apply_boundary(rec, geo, grid):
+    """modifies the real grid as the recipe says; returns (expected surface per column, names of the boundary blocks)"""
+    import t2grids
+    b = rec.get('boundary')
+    exp = [float(c.surface) for c in geo.columnlist]
+    if not b:
+        return exp, set()
+    if b['mode'] == 'atm-demoted':
+        names = [blk.name for blk in grid.atmosphere_blocks]
+        grid.demote_block(names)
+        return exp, set(names)
+    nlay = len(geo.layerlist) - 1
+    # a witness column keeps a complete block in the top layer, so that its thickness stays observable
+    witness = [i for i, c in enumerate(geo.columnlist) if c.surface >= geo.layerlist[1].top]
+    chosen = []
+    for i in b['cols']:
+        col = geo.columnlist[i]
+        k = top_layer_index(geo, col)
+        if k is None or k >= nlay:          # the bottom layer stays
+            continue
+        if b['mode'] != 'top-marker' and i in witness and all(w == i or w in chosen for w in witness):
+            continue
+        chosen.append(i)
+    names = []
+    for i in chosen:
+        col = geo.columnlist[i]
+        k = top_layer_index(geo, col)
+        name = geo.block_name(geo.layerlist[k].name, col.name)
+        names.append(name)
+        exp[i] = float(geo.layerlist[k].bottom)
+    if b['mode'] == 'top-zero':
+        for n in names: grid.block[n].volume = 0.0
+    elif b['mode'] == 'top-huge':
+        for n in names: grid.block[n].volume = 1.e30
+    elif names:
+        grid.add_block(t2grids.t2block('zzz99', 0.0, grid.rocktypelist[0]))
+        grid.demote_block(names)
+    return exp, set(names) | ({'zzz99'} if b['mode'] == 'top-marker' and names else set())
 
 
 def surface_value(geo, spec):
@@ -146,6 +218,7 @@ def build(rec):
         if rec['shift'] is not None:
             geo.translate(np.array(rec['shift']))
         grid = t2grids.t2grid().fromgeo(geo)
+        rec['_expected'] = apply_boundary(rec, geo, grid)
     return geo, grid
 
 
@@ -165,7 +238,7 @@ def run_rectgeo(grid, rec):
     try:
         with quiet():
             geo1, bm = grid.rectgeo(atmos_volume=1.e25, convention=rec['conv1'], atmos_type=rec['atm'], justify=rec['justify'],
-                                    layer_snap=rec['snap'])
+                                    layer_snap=rec['snap'], remove_inactive=bool(rec.get('remove_inactive')))
         return ('ok', geo1, bm)
     except Exception as e:
         return ('exc', type(e).__name__)
@@ -185,7 +258,7 @@ def oracle(rec, geo0, grid, res_real, rtol, atol_pos, label=''):
     out = []
 
     def bad(key, what):
-        out.append(dict(key=key, what=label + what, case=rec))
+        out.append(dict(key=key, what=label + what, case=dict((k, v) for k, v in rec.items() if not k.startswith('_'))))
         return out
     if res_real[0] == 'exc':
         return bad('rectgeo-raises:' + res_real[1], 'rectgeo raises %s on a grid generated from a rectangular geometry' % res_real[1])
@@ -217,9 +290,10 @@ def oracle(rec, geo0, grid, res_real, rtol, atol_pos, label=''):
         if not (abs(l1.bottom - l0.bottom) <= atol_pos and abs(l1.top - l0.top) <= atol_pos):
             return bad('elevation', 'layer %r of the reconstruction spans (%r, %r), original (%r, %r)' % (l1.name, l1.bottom, l1.top, l0.bottom, l0.top))
     # --- surfaces
-    for c1, c0 in zip(geo1.columnlist, geo0.columnlist):
-        if not abs(c1.surface - c0.surface) <= atol_pos:
-            return bad('surface', 'column %r surface %r, original %r' % (c1.name, float(c1.surface), float(c0.surface)))
+    exp_surf, boundary = rec.get('_expected') or ([float(c.surface) for c in geo0.columnlist], set())
+    for c1, s0 in zip(geo1.columnlist, exp_surf):
+        if not abs(c1.surface - s0) <= atol_pos:
+            return bad('surface', 'column %r surface %r, expected %r' % (c1.name, float(c1.surface), s0))
     # --- atmosphere arrangement
     if geo1.atmosphere_type != geo0.atmosphere_type:
         return bad('atmosphere', 'atmosphere type %r, original %r' % (geo1.atmosphere_type, geo0.atmosphere_type))
@@ -231,6 +305,11 @@ def oracle(rec, geo0, grid, res_real, rtol, atol_pos, label=''):
         return bad('regenerate-raises:' + type(e).__name__, 'fromgeo(reconstruction, blockmap) raises %s' % type(e).__name__)
     B0, K0 = grid_summary(grid)
     B1, K1 = grid_summary(grid1)
+    if rec.get('boundary') and rec['boundary']['mode'] != 'atm-demoted':
+        # blocks turned into boundary blocks of a grid without atmosphere are not part of the reconstruction:
+        # compare the active part (blocks, and connections between two active blocks)
+        B0 = dict((n, b) for n, b in B0.items() if n not in boundary)
+        K0 = dict((k, v) for k, v in K0.items() if k[0] not in boundary and k[1] not in boundary)
     if set(B0) != set(B1):
         d = sorted(set(B0) ^ set(B1))
         return bad('regenerated-names', 'regenerated grid block names differ from the original: %r' % d[:6])
@@ -258,7 +337,7 @@ def oracle(rec, geo0, grid, res_real, rtol, atol_pos, label=''):
 
 def encode(grid, rec):
     t = ['rectgeo', enc_rat(1.e25), str(rec['conv1']), str(rec['atm']), '1' if rec['justify'] == 'l' else '0',
-         enc_name('abcdefghijklmnopqrstuvwxyz'), '1', '0', enc_rat(rec['snap']), '-']
+         enc_name('abcdefghijklmnopqrstuvwxyz'), '1', '0', enc_rat(rec['snap']), '1' if rec.get('remove_inactive') else '0', '-']
     t.append(str(len(grid.blocklist)))
     for b in grid.blocklist:
         t += [enc_name(b.name), enc_rat(b.volume)]
@@ -367,9 +446,10 @@ def anchored_functions():
 
 
 def describe(rec):
-    return 'rect %dx%dx%d conv %d->%d atm %d atmvol %g angle %s surf %s snap %g%s' % (
+    return 'rect %dx%dx%d conv %d->%d atm %d atmvol %g angle %s surf %s snap %g%s%s%s' % (
         len(rec['dx']), len(rec['dy']), len(rec['dz']), rec['conv'], rec['conv1'], rec['atm'], rec['atmvol'], rec['angle'],
-        'flat' if rec['surf'] is None else 'varied', rec['snap'], ' +file' if rec['file'] else '')
+        'flat' if rec['surf'] is None else 'varied', rec['snap'], ' +file' if rec['file'] else '',
+        ' boundary:%s' % rec['boundary']['mode'] if rec.get('boundary') else '', ' remove_inactive' if rec.get('remove_inactive') else '')
 
 
 def scale_of(geo0):
@@ -401,6 +481,8 @@ def gen_cases(ctx, rng, scale=1.0):
         cases.append(gen_case(rng, big=(i % 30 == 7)))
     for i in range(n_file):
         cases.append(gen_case(rng, file=True))
+    for i in range(int(ctx.n(80, 1000) * scale)):
+        cases.append(gen_boundary(rng))
     return cases
 
 
@@ -432,8 +514,12 @@ def run(ctx, scale=1.0, oracle_only=False):
             res.count('surface:' + ('flat' if rec['surf'] is None else 'varied'))
             res.count('single-block-direction:' + ('x' if len(rec['dx']) == 1 else 'y' if len(rec['dy']) == 1 else 'none'))
             res.count('outcome:' + (real[0] if real[0] == 'ok' else real[1]))
+            res.count('boundary:' + (rec['boundary']['mode'] if rec.get('boundary') else 'none') + ('/remove_inactive' if rec.get('remove_inactive') else ''))
             res.count('blocks', len(g.blocklist))
-            res.violations += oracle(rec, geo0, g, real, rtol, atol, label='' if tag == 'mem' else 'after a data-file round trip: ')
+            if rec.get('oracle', True):
+                res.violations += oracle(rec, geo0, g, real, rtol, atol, label='' if tag == 'mem' else 'after a data-file round trip: ')
+            else:
+                res.count('oracle skipped (misuse of remove_inactive)')
             if not oracle_only and ctx.model_ok:
                 lines.append(encode(g, rec))
                 items.append((rec, tag, real, atol))
@@ -445,7 +531,7 @@ def run(ctx, scale=1.0, oracle_only=False):
             d = compare(rec, real, r, atol)
             if d:
                 facet['disagreements'] += 1
-                res.disagreements.append(dict(facet='rectgeo', case=dict(rec, variant=tag), model=d[:300], impl='(see model field: first difference)'))
+                res.disagreements.append(dict(facet='rectgeo', case=dict(((k, v) for k, v in rec.items() if not k.startswith('_')), variant=tag), model=d[:300], impl='(see model field: first difference)'))
             if r.exc is None:
                 res.count('model-rotation:' + ('exact' if r.exact else 'approximated norm'))
                 for k, bit in enumerate(r.lines):
